@@ -41,8 +41,8 @@ var optLogs = map[string]struct {
 	file string
 	recs int
 }{"flag": {"log_flag.yaml", 7}, "env": {"log_env.yaml", 8}, "config/default": {"log_cfg_default.yaml", 9}, "config/flag": {"log_cfg_flag.yaml", 10}, "config/env": {"log_cfg_env.yaml", 11}, "default": {"log.yaml", 12}}
-var optFmts = map[string]string{"flag": "2006-01-02", "env": "02.01.2006", "config/default": "01|02|2006", "config/flag": "2006_01_02", "config/env": "02~01~2006", "default": "2006/01/02"}
-var optDepths = map[string]int{"flag": 3, "env": 5, "config/default": 7, "config/flag": 8, "config/env": 9, "default": 10}
+var optFmts0 = map[string]string{"flag": "2006-01-02", "env": "02.01.2006", "config/default": "01|02|2006", "config/flag": "2006_01_02", "config/env": "02~01~2006", "default": "2006/01/02"}
+var optDepths0 = map[string]int{"flag": 3, "env": 5, "config/default": 7, "config/flag": 8, "config/env": 9, "default": 10}
 var optNows = map[string]time.Time{"flag": time.Date(2020, 2, 3, 0, 0, 0, 0, time.UTC), "config/default": time.Date(2019, 3, 4, 0, 0, 0, 0, time.UTC), "config/flag": time.Date(2018, 4, 5, 0, 0, 0, 0, time.UTC), "config/env": time.Date(2017, 5, 6, 0, 0, 0, 0, time.UTC)}
 
 const optUID = 54321
@@ -102,7 +102,7 @@ func prepareOptionsDirFmt(dir string, layout string) error {
 	return nil
 }
 
-func configText(which string, cfg map[string]bool, dir string) string {
+func configText(which string, cfg map[string]bool, dir string, optFmts map[string]string, optDepths map[string]int) string {
 	var g, r strings.Builder
 	if cfg["today"] {
 		fmt.Fprintf(&g, "Now=%s\n", optNows["config/"+which].Format(time.RFC3339))
@@ -176,6 +176,35 @@ func optionsReplay(e *env) error {
 			return nil
 		}
 		_ = n
+		// values: distinguishable at every level; in two of five cases the flag's (resp. the environment's) value
+		// EQUALS the documented default, which must still beat the configuration file
+		optDepths, optFmts := map[string]int{}, map[string]string{}
+		for k, v := range optDepths0 {
+			optDepths[k] = v
+		}
+		for k, v := range optFmts0 {
+			optFmts[k] = v
+		}
+		switch idx % 5 {
+		case 1:
+			optDepths["flag"], optFmts["flag"] = optDepths0["default"], optFmts0["default"]
+		case 3:
+			optDepths["env"], optFmts["env"] = optDepths0["default"], optFmts0["default"]
+		}
+		// a configuration file may be a symbolic link
+		link := idx%4 == 2
+		writeCfg := func(path, text string) {
+			if !link {
+				writeFile(path, text)
+				return
+			}
+			real := filepath.Join(filepath.Dir(path), "real-"+filepath.Base(path))
+			writeFile(real, text)
+			os.Remove(path)
+			if err := os.Symlink(real, path); err != nil {
+				writeFile(path, text)
+			}
+		}
 		dir := filepath.Join(scratch, fmt.Sprintf("opt-%d", idx%48))
 		// one directory per concurrent slot is not safe across goroutines: use a per-case directory
 		dir = filepath.Join(scratch, fmt.Sprintf("opt-case-%d", idx))
@@ -190,18 +219,18 @@ func optionsReplay(e *env) error {
 		var args, env []string
 		defCfg := filepath.Join(dir, ".hranoprovod", "config")
 		if c.DefaultPresent {
-			writeFile(defCfg, configText("default", c.Cfg, dir))
+			writeCfg(defCfg, configText("default", c.Cfg, dir, optFmts, optDepths))
 		}
 		switch c.CFlag {
 		case "exists":
-			writeFile(filepath.Join(dir, "cfgflag.ini"), configText("flag", c.Cfg, dir))
+			writeCfg(filepath.Join(dir, "cfgflag.ini"), configText("flag", c.Cfg, dir, optFmts, optDepths))
 			args = append(args, "--config", filepath.Join(dir, "cfgflag.ini"))
 		case "missing":
 			args = append(args, "--config", filepath.Join(dir, "no-such-flag.ini"))
 		}
 		switch c.CEnv {
 		case "exists":
-			writeFile(filepath.Join(dir, "cfgenv.ini"), configText("env", c.Cfg, dir))
+			writeCfg(filepath.Join(dir, "cfgenv.ini"), configText("env", c.Cfg, dir, optFmts, optDepths))
 			env = append(env, "HR_CONFIG="+filepath.Join(dir, "cfgenv.ini"))
 		case "missing":
 			env = append(env, "HR_CONFIG="+filepath.Join(dir, "no-such-env.ini"))
@@ -312,6 +341,15 @@ func optionsReplay(e *env) error {
 			}
 		} else if want := optNows[srcKey(c.Eff["today"], c.Loaded)]; !got.Equal(want) {
 			e.mismatch("setting-today-wrong-source", "cmd/hranoprovod-cli/internal/options/options.go", fmt.Sprintf("%v %v: Today line %q, specification predicts %s (today from %q)", env, args, today, want.Format("2006-01-02"), c.Eff["today"]), rec)
+		}
+		// the current date also governs the distances stats prints (first heading of every log: 2021-01-01)
+		if c.Eff["today"] != "default" {
+			want := optNows[srcKey(c.Eff["today"], c.Loaded)]
+			wantAgo := int(want.Sub(time.Date(2021, 1, 1, 0, 0, 0, 0, time.UTC)).Hours() / 24)
+			ma := regexp.MustCompile(`First record:\s*\S+ \((-?\d+) days ago\)`).FindStringSubmatch(r.Stdout)
+			if ma == nil || ma[1] != fmt.Sprint(wantAgo) {
+				e.mismatch("setting-today-wrong-source", "cmd/hranoprovod-cli/internal/stats", fmt.Sprintf("%v %v: stats prints %q for a first record of 2021-01-01; with today = %s (from %q) it is %d days ago", env, args, ma, want.Format("2006-01-02"), c.Eff["today"], wantAgo), rec)
+			}
 		}
 		// depth: two probes with the book given by -d (a configuration with the same depth sources)
 		if c.Flag["depth"] || c.Env["depth"] || c.Cfg["depth"] || idx%7 == 0 {
